@@ -82,9 +82,11 @@ def directions(rng, m):
   return ds
 
 
-def check_jacobians(cons, x, m, rng, label):
-  """finite differences of every `fun` against its `jac` at the flat flow x (m variables).
-  Returns a list of (kind, detail)."""
+def check_jacobians(cons, x, m, rng, label, x_eval=None, fd=True):
+  """finite differences of every `fun` against its `jac` at the flat float flow x (m variables).  With `x_eval` (the same
+  flow as an INTEGER-typed array) the Jacobian is evaluated there, must equal the Jacobian at the float copy (metamorphic: the
+  dtype of the flow array must not matter), and is the one compared with the finite differences (skipped when `fd` is False
+  because the integer flow sits on a storage kink).  Returns a list of (kind, detail)."""
   np = G.np()
   out = []
   h = 1e-5
@@ -93,7 +95,8 @@ def check_jacobians(cons, x, m, rng, label):
     if 'jac' not in c:
       continue
     try:
-      J = np.asarray(c['jac'](x), dtype=float)
+      J = np.asarray(c['jac'](x if x_eval is None else x_eval), dtype=float)
+      Jf = np.asarray(c['jac'](x), dtype=float) if x_eval is not None else J
     except Exception as e:
       out.append(('jac-raises', '%s: constraints[%d].jac raised %s: %s' % (label, ci, type(e).__name__, str(e)[:100])))
       continue
@@ -101,6 +104,13 @@ def check_jacobians(cons, x, m, rng, label):
       out.append(('jac-shape', '%s: constraints[%d].jac has %d entries (shape %s) for %d flow variables' % (label, ci, J.size, J.shape, m)))
       continue
     J = J.reshape(-1)
+    if x_eval is not None and (Jf.size != m or np.abs(Jf.reshape(-1) - J).max() > 1e-12):
+      k = int(np.argmax(np.abs(Jf.reshape(-1) - J))) if Jf.size == m else -1
+      out.append(('jac-int-flow', '%s: constraints[%d] (%s): jac at the integer-typed flow %s differs from jac at the same flow as float: entry %d is %.9g vs %.9g'
+                  % (label, ci, c['type'], np.asarray(x_eval).reshape(-1).tolist(), k, J[k], Jf.reshape(-1)[k] if Jf.size == m else float('nan'))))
+      continue
+    if not fd:
+      continue
     f = lambda y: G.scalar(c['fun'](y))
     for (k, dvec) in dirs:
       if dvec is None:
@@ -133,11 +143,14 @@ class C06(Prop):
   rule = ('leaf cases: every atomic class x cumulative-bound form x storage variants x ADevice user constraints (as C03); tree cases: random '
           'asymmetric trees (depth 1..3, fan-out 1..3, children with different row counts) with multi-flow adaptors (1..3 conduits, wrapped '
           'device with cumulative bounds / user constraints; 40 % around a charge-only or discharge-only storage, mostly lossy, or a thermal device) and two-ratio sets (eq / ineq), aggregate bounds (equality and range), '
-          'sub-balanced sets; two probe matrices each (zeros included for T2). non-trivial: the tree has >= 2 rows and some constraint with a '
+          'sub-balanced sets; two-ratio vector handed over as list / tuple / int ndarray / float ndarray; two dyadic probe matrices (zeros included for T2) plus one all-integer '
+          'probe passed as an INTEGER-typed array; flows presented flat or (R, n) / (n,) or (1, n); .constraints read once or twice. non-trivial: the tree has >= 2 rows and some constraint with a '
           'Jacobian reads >= 2 variables')
   sizes = {'quick': 700, 'thorough': 6000}
   assumptions = ['oracle: central finite differences (h=1e-5 and 8e-5; entries where the two disagree are kinks and skipped) along every '
                  'coordinate when R*n <= 16, else 6 coordinates + 10 dense random directions; lossy-storage rows are moved off 0 first',
+                 'oracle glue checks: first and second read of .constraints are each checked by finite differences; the Jacobian at an integer-typed flow must equal the '
+                 'Jacobian at the same flow as float (and the finite differences, unless that flow sits on a storage kink); caller-owned arrays (ratios, aggregate bounds) must be unchanged afterwards',
                  'T2 compares (type, has-Jacobian, value, flat Jacobian) per constraint at the probes as a multiset: each model row is paired with the nearest unused implementation row of the same length']
 
   def __init__(self):
@@ -157,7 +170,10 @@ class C06(Prop):
           d['cbs'][-1][3] = d['n'] + rng.randint(1, 2)
         lb = [C.F(x) for x in d['lb']]; hb = [C.F(x) for x in d['hb']]
         probes = [[C.fs(v) for v in gen.gen_flow(rng, lb, hb, m)] for m in ('interior', 'mixed')]
-        out.append({'kind': 'leaf', 'dev': d, 'probes': probes, '_shape': rng.choice(['flat', 'row']), 'tag': tag, 'oseed': rng.randrange(1 << 30)})
+        lossy = d['cls'] == 'SDevice' and d['prm'].get('efficiency', '1') != '1'
+        ip = [str(v) for v in G.int_flow(rng, lb, hb, range(d['n']) if lossy else ())]
+        out.append({'kind': 'leaf', 'dev': d, 'probes': probes, 'iprobe': ip, '_shape': rng.choice(['flat', 'row']), '_reads': rng.choice([1, 2]),
+                    'tag': tag, 'oseed': rng.randrange(1 << 30)})
       else:
         t, n = gen.gen_tree(rng, tier, want_mf=rng.random() < 0.7)
         for b in gen.tree_leaves(t):
@@ -170,75 +186,111 @@ class C06(Prop):
             lb = [C.F(x) for x in d['lb']]; hb = [C.F(x) for x in d['hb']]
             rows, pyform, _ = G.gen_cbound_form(rng, n, lb, hb)
             d['cbs'] = [[C.fs(r[0]), C.fs(r[1]), r[2], r[3]] for r in rows]; d['_py']['cform'] = pyform
+          if b['k'] == 'mf' and b.get('ratios'):
+            if rng.random() < 0.3:
+              b['ratios'] = [str(rng.randint(1, 3)), str(rng.randint(1, 8))]     # integer-valued, as in the sample scenarios ([1, 8])
+            b['_py'] = {'rform': rng.choice(G.RATIO_FORMS)}
         probes = [gen.tree_flow(rng, t, n, m) for m in ('interior', 'mixed')]
-        out.append({'kind': 'tree', 'tree': t, 'n': n, 'probes': probes, 'oseed': rng.randrange(1 << 30)})
+        blb, bhb = gen.tree_box(t, n)
+        R = gen.tree_rows(t)
+        flat = G.int_flow(rng, blb, bhb, set(r*n + i for r in lossy_rows(t, n) for i in range(n)))
+        ip = [[str(v) for v in flat[r*n:(r + 1)*n]] for r in range(R)]
+        out.append({'kind': 'tree', 'tree': t, 'n': n, 'probes': probes, 'iprobe': ip, '_shape': rng.choice(['flat', 'flat', 'matrix']),
+                    '_reads': rng.choice([1, 2]), 'oseed': rng.randrange(1 << 30)})
     G.prefetch([self.line(c) for c in out])
     return out
 
   def line(self, case):
+    probes = list(case['probes']) + ([case['iprobe']] if case.get('iprobe') else [])
     if case['kind'] == 'leaf':
-      return {'op': 'cons.leaf', 'dev': case['dev'], 'probes': case['probes'], 'jac': True}
-    return {'op': 'cons.tree', 'tree': case['tree'], 'n': case['n'], 'probes': case['probes'], 'jac': True}
+      return {'op': 'cons.leaf', 'dev': case['dev'], 'probes': probes, 'jac': True}
+    return {'op': 'cons.tree', 'tree': case['tree'], 'n': case['n'], 'probes': probes, 'jac': True}
+
+  def shaper(self, case):
+    """the shape the caller presents a flow in: a leaf takes (n,) or its declared (1, n); a set takes the flat vector SLSQP uses or (R, n)."""
+    if case['kind'] == 'leaf':
+      return (lambda y: y.reshape(1, -1)) if case.get('_shape') == 'row' else (lambda y: y.reshape(-1))
+    R, n = gen.tree_rows(case['tree']), case['n']
+    return (lambda y: y.reshape(R, n)) if case.get('_shape') == 'matrix' else (lambda y: y.reshape(-1))
+
+  def impl_probes(self, case):
+    np = G.np()
+    sh = self.shaper(case)
+    P = [sh(build.arr(x)) for x in case['probes']]
+    if case.get('iprobe'):
+      P.append(sh(np.array(build.jf(case['iprobe']), dtype=float).astype(int)))      # INTEGER-typed, always
+    return P
 
   def ops(self, case):
     line = self.line(case)
     mrows = G.model_rows(line)
-    if case['kind'] == 'leaf':
-      dev = G.build_dev(case['dev'], 'dev')
-      P = [build.arr(x) for x in case['probes']]
-      if case.get('_shape') == 'row':
-        P = [x.reshape(1, -1) for x in P]
-      return [Op(line, lambda: G.align_rows(mrows, G.impl_rows(dev.constraints, P, True)), 1e-9, 'leaf constraint Jacobians')]
-    dev = build.build_tree(case['tree'])
-    P = [build.arr(x).reshape(-1) for x in case['probes']]
-    return [Op(line, lambda: G.align_rows(mrows, G.impl_rows(dev.constraints, P, True)), 1e-9, 'tree constraint Jacobians')]
+    P = self.impl_probes(case)
+    dev = G.build_dev(case['dev'], 'dev') if case['kind'] == 'leaf' else G.build_tree(case['tree'])
+    def impl():
+      cons = dev.constraints
+      if case.get('_reads') == 2:
+        cons = dev.constraints          # the list a second read returns must be the same list
+      return G.align_rows(mrows, G.impl_rows(cons, P, True))
+    return [Op(line, impl, 1e-9, '%s constraint Jacobians%s' % (case['kind'], ' (second read)' if case.get('_reads') == 2 else ''))]
 
   def oracle(self, case):
     np = G.np()
     rng = random.Random(case.get('oseed', 0))
     fails = []
+    sh = self.shaper(case)
+    owned = []
     if case['kind'] == 'leaf':
-      d = case['dev']; n = d['n']
+      d = case['dev']; n = m = d['n']
       dev = G.build_dev(d, 'dev')
       lossy = d['cls'] == 'SDevice' and d['prm'].get('efficiency', '1') != '1'
       self.bump('leaf:' + d['cls'])
-      for x in case['probes']:
-        xa = build.arr(x).astype(float)      # (integer-typed probe arrays would truncate the move off the kink)
-        if lossy:
-          xa = off_kink(xa, range(n))
-        if case.get('_shape') == 'row':
-          xa = xa.reshape(1, -1)
-        cons = dev.constraints
-        # finite differences perturb a flat copy; give the constraint the shape it was called with
-        shp = xa.shape
-        wrapped = [dict(c, fun=(lambda y, f=c['fun']: f(y.reshape(shp))), **({'jac': (lambda y, j=c['jac']: j(y.reshape(shp)))} if 'jac' in c else {})) for c in cons]
-        for kind, detail in check_jacobians(wrapped, xa.reshape(-1), n, rng, '%s n=%d cbounds=%s' % (d['cls'], n, d.get('cbs'))):
-          fails.append({'key': {'cls': d['cls'], 'kind': kind}, 'detail': detail})
-        if fails:
-          break
-      return fails
-    t = case['tree']; n = case['n']
-    dev = build.build_tree(t)
-    R = gen.tree_rows(t)
-    self.bump('tree:rows=%d' % min(R, 8))
-    if gen.tree_has(t, 'mf'):
-      self.bump('tree:mf')
-    if any(b['k'] == 'mf' and b.get('ratios') for b in gen.tree_leaves(t)):
-      self.bump('tree:ratio')
-    idx = [r*n + i for r in lossy_rows(t, n) for i in range(n)]
-    mfl = mf_lossy_blocks(t, n)
-    if mfl:
-      self.bump('tree:mf-around-lossy-storage')
-    if any(b['k'] == 'mf' and b['dev']['cls'] == 'TDevice' for b in gen.tree_leaves(t)):
-      self.bump('tree:mf-around-thermal')
-    label = type(dev).__name__
-    for S in case['probes']:
-      x = off_sum_kink(off_kink(build.arr(S).reshape(-1).astype(float), idx), n, mfl)
-      for kind, detail in check_jacobians(dev.constraints, x, R*n, rng, '%s (%d rows x %d slots)' % (label, R, n)):
-        fails.append({'key': {'cls': label, 'kind': kind}, 'detail': detail})
+      cls = d['cls']
+      label = '%s n=%d cbounds=%s' % (cls, n, d.get('cbs'))
+      fix = (lambda x: off_kink(x, range(n))) if lossy else (lambda x: x)
+    else:
+      t = case['tree']; n = case['n']
+      dev = G.build_tree(t, owned)
+      R = gen.tree_rows(t); m = R*n
+      self.bump('tree:rows=%d' % min(R, 8))
+      if gen.tree_has(t, 'mf'):
+        self.bump('tree:mf')
+      for b in gen.tree_leaves(t):
+        if b['k'] == 'mf' and b.get('ratios'):
+          self.bump('tree:ratio:' + b.get('_py', {}).get('rform', 'list'))
+      idx = [r*n + i for r in lossy_rows(t, n) for i in range(n)]
+      mfl = mf_lossy_blocks(t, n)
+      if mfl:
+        self.bump('tree:mf-around-lossy-storage')
+      if any(b['k'] == 'mf' and b['dev']['cls'] == 'TDevice' for b in gen.tree_leaves(t)):
+        self.bump('tree:mf-around-thermal')
+      cls = type(dev).__name__
+      label = '%s (%d rows x %d slots)' % (cls, R, n)
+      fix = lambda x: off_sum_kink(off_kink(x, idx), n, mfl)
+    snap = [a.copy() for _, a in owned]
+    # the finite differences perturb a flat float copy; every constraint is called with the shape (and, for the integer probe, the dtype) the caller uses
+    wrap = lambda cons: [dict(c, fun=(lambda y, f=c['fun']: f(sh(y))), **({'jac': (lambda y, j=c['jac']: j(sh(y)))} if 'jac' in c else {})) for c in cons]
+    reads = [dev.constraints, dev.constraints]
+    if len(reads[0]) != len(reads[1]):
+      fails.append({'key': {'cls': cls, 'kind': 'second-read'}, 'detail': '%s: .constraints has %d entries on the first read and %d on the second' % (label, len(reads[0]), len(reads[1]))})
+    for pi, S in enumerate(case['probes']):
       if fails:
         break
-    return fails
+      x = fix(build.arr(S).reshape(-1).astype(float))
+      for kind, detail in check_jacobians(wrap(reads[pi % 2]), x, m, rng, '%s, read %d of .constraints' % (label, pi % 2 + 1)):
+        fails.append({'key': {'cls': cls, 'kind': kind}, 'detail': detail})
+    if case.get('iprobe') and not fails:
+      xi = np.array(build.jf(case['iprobe']), dtype=float).reshape(-1).astype(int)
+      xf = xi.astype(float)
+      on_kink = bool(np.abs(fix(xf) - xf).max() > 0) if m else False
+      self.bump('int-probe:' + ('metamorphic-only' if on_kink else 'fd+metamorphic'))
+      for kind, detail in check_jacobians(wrap(reads[1]), xf, m, rng, '%s, read 2 of .constraints' % label, x_eval=xi, fd=not on_kink):
+        fails.append({'key': {'cls': cls, 'kind': kind}, 'detail': detail})
+    for (name, a), before in zip(owned, snap):
+      if a.shape != before.shape or not np.array_equal(a, before):
+        fails.append({'key': {'cls': cls, 'kind': 'caller-array-mutated'},
+                      'detail': '%s: the caller\'s array passed as %s was %s before and is %s after reading .constraints' % (label, name, before.tolist(), a.tolist())})
+        break
+    return fails[:1] if fails else fails
 
   def nontrivial(self, case):
     if case['kind'] != 'tree':
@@ -257,7 +309,7 @@ class C06(Prop):
 
   def canon(self, case):
     import json
-    return json.dumps({k: v for k, v in case.items() if k not in ('oseed', 'tag', '_shape')}, sort_keys=True, default=str)
+    return json.dumps({k: v for k, v in case.items() if k not in ('oseed', 'tag', '_shape', '_reads')}, sort_keys=True, default=str)
 
   def extra_evidence(self):
     return {'input_distribution': dict(sorted(self.hist.items()))}
